@@ -33,6 +33,9 @@ func runC11(o opts) error {
 			scns = append(scns, c11.GenWideEdge(rng, 1)...)
 			scns = append(scns, c11.GenTextWidth(rng, 3, 1)...)
 			scns = append(scns, c11.GenTextWidth(rng, 4, 0.5)...)
+		} else if o.extra == "style" { // development: only the set-style-on-wide-glyphs families, in full
+			scns = append(scns, c11.GenStyle(rng, 1)...)
+			scns = append(scns, c11.GenStyleTrees(rng, 3000)...)
 		} else if o.tier == "thorough" {
 			scns = append(scns, c11.GenDepth1(rng, 1, 3)...)
 			scns = append(scns, c11.GenCoords(rng, true)...)
@@ -43,6 +46,8 @@ func runC11(o opts) error {
 			scns = append(scns, c11.GenWideEdge(rng, 1)...)
 			scns = append(scns, c11.GenTextWidth(rng, 3, 1)...)
 			scns = append(scns, c11.GenTextWidth(rng, 4, 0.5)...)
+			scns = append(scns, c11.GenStyle(rng, 1)...)
+			scns = append(scns, c11.GenStyleTrees(rng, 3000)...)
 		} else {
 			scns = append(scns, c11.GenDepth1(rng, 0.05, 4)...)
 			scns = append(scns, c11.GenCoords(rng, false)...)
@@ -52,6 +57,8 @@ func runC11(o opts) error {
 			scns = append(scns, c11.GenTextRandom(rng, 800)...)
 			scns = append(scns, c11.GenWideEdge(rng, 0.34)...)
 			scns = append(scns, c11.GenTextWidth(rng, 3, 0.25)...)
+			scns = append(scns, c11.GenStyle(rng, 0.3)...)
+			scns = append(scns, c11.GenStyleTrees(rng, 200)...)
 		}
 		scns = append(scns, c11.Fixed()...)
 	}
